@@ -1,0 +1,12 @@
+//go:build verif
+
+// Contracts for package types, checked by /verif/govc (comment-only; compiled only with -tags verif).
+package types
+
+//@ func MergeObjectMap(this *ObjectMap, other *ObjectMap)
+//@   requires this != nil && other != nil && deref(this) != nil && deref(this) != deref(other)
+//@   ensures [C15:overlay] forall k string :: (old(has(deref(other), k)) ==> (has(deref(this), k) && deref(this)[k] == old(deref(other)[k]))) && (!old(has(deref(other), k)) ==> (has(deref(this), k) == old(has(deref(this), k)) && deref(this)[k] == old(deref(this)[k])))
+//@   ensures [C15:frame] forall m map[string]any :: m != deref(this) ==> unchanged(m)
+//@   loop 1 /* for k, v := range *other */
+//@     invariant [C15] forall m map[string]any :: m != deref(this) ==> unchanged(m)
+//@     invariant [C15] forall k string :: (seen(k) ==> (has(deref(this), k) && deref(this)[k] == old(deref(other)[k]))) && (!seen(k) ==> (has(deref(this), k) == old(has(deref(this), k)) && deref(this)[k] == old(deref(this)[k])))
